@@ -47,9 +47,16 @@ class SimFile:
         self._closed = False
         world.io_event('open', self, None)          # may raise before any effect
         kwargs = dict(kwargs)
-        kwargs['buffering'] = 0                     # every write reaches the file at once
-        self._f = world.real_open(path, mode, *args[2:], **kwargs) if len(args) > 2 else \
-            world.real_open(path, mode, **kwargs)
+        extra = list(args[2:])
+        # what the code under test asked for: buffering=0 is a RAW file, whose write() may transfer fewer bytes than given and
+        # says so only through its return value; anything else is a buffered writer, which re-issues short raw writes itself
+        asked = extra[0] if extra else kwargs.get('buffering', -1)
+        self._raw_asked = asked == 0
+        if extra:
+            extra[0] = 0
+        else:
+            kwargs['buffering'] = 0                 # (the proxy itself always writes through: every write reaches the file at once)
+        self._f = world.real_open(path, mode, *extra, **kwargs)
         world.io_done('open', self, 0, 0)
 
     def write(self, b):
@@ -259,7 +266,7 @@ class World:
         for f in self.faults:
             if f.get('at_event') == self.ev and not f.get('_fired'):
                 fk = f['kind']
-                if fk == 'crash' or fk == kind + '_fail':
+                if fk == 'crash' or fk == kind + '_fail' or (fk == 'short_write' and kind == 'write'):
                     return f
         return None
 
@@ -293,6 +300,18 @@ class World:
                 en = f.get('errno', errno.ENOSPC)
                 self._record(idx, 'write', sf, n, part, 'OSError(%d)' % en, f)
                 raise OSError(en, os.strerror(en))
+            if f and f['kind'] == 'short_write' and getattr(sf, '_raw_asked', False):
+                # a raw file taking only part of the bytes (transfer limit, quota or file-size limit reached, signal): no error,
+                # the count is the return value.  (Asked of a buffered file the plan does not fire: that layer retries.)
+                f['_fired'] = True
+                part = min(max(int(f.get('partial', 0)), 1), max(n - 1, 0))
+                if part:
+                    sf._raw_write(memoryview(data)[:part])
+                self.ev += 1
+                self._record(idx, 'write', sf, n, part, None, None)
+                self.events[-1]['short'] = True
+                self.fault_trace.append({'event': idx, 'call': 'write', 'len': n, 'written': part, 'raised': None, 'short_write': True})
+                return part
             if f and f['kind'] == 'crash' and f.get('partial') is not None:
                 f['_fired'] = True
                 part = min(max(int(f['partial']), 0), n)
@@ -685,6 +704,12 @@ class World:
     def _make_data(self, d, r):
         if d is None:
             return None
+        if d.get('share'):
+            # the caller hands the SAME data object (dict, structured array) to several writes
+            key = 'data:' + str(d['share'])
+            if key not in self.codec.shared:
+                self.codec.shared[key] = self._make_data({kk: vv for kk, vv in d.items() if kk != 'share'}, r)
+            return self.codec.shared[key]
         k = d['kind']
         if k == 'dict':
             return {name: values.make_array(rc, self.buffers) for name, rc in d['arrays']}
